@@ -1,4 +1,9 @@
 // Command c15 hosts the driver of property C15 (piece request bookkeeping).
+//
+// The default selection policy draws from the global math/rand source; randseednop=0 keeps
+// rand.Seed effective so that a run is reproducible from VERIF_SEED.
+//
+//go:debug randseednop=0
 package main
 
 import "verifharness/hlib"
